@@ -504,6 +504,29 @@ def group3(report, tier):
                 report.violation(cname, '=' + text, f'literal evaluates to {got!r}, float({text!r}) = {float(text)!r}')
             else:
                 report.condition(cname, 'E2', 'spurious', r['secs'], 1, f'model {text} not reproduced')
+        elif r['verdict'] == 'unsupported':
+            # the code shape is not carried by the proxies (e.g. the digit groups are re-formatted): a native grid through the real lexer instead
+            # (enumeration, labelled): every fraction with k digits incl. leading zeros x a handful of integer parts
+            k, e = r['k'], r['e']
+            bad, n = None, 0
+            for i in (0, 1, 7, 12, 255, 65535):
+                for f in range(10 ** k):
+                    text = f'{i}.{f:0{k}d}' + (f'e{e}' if e is not None else '')
+                    n += 1
+                    try:
+                        got = eval(translate_one('=' + text)._cell_translations['_0_5_0'])
+                    except Exception as ex:
+                        got = f'{type(ex).__name__}: {ex}'
+                    if got != float(text):
+                        bad = (text, got)
+                        break
+                if bad:
+                    break
+            if bad:
+                report.condition(cname, 'grid', 'violated', r['secs'], n, f'={bad[0]} -> {bad[1]!r}, nearest double is {float(bad[0])!r}')
+                report.violation(cname, '=' + bad[0], f'literal evaluates to {bad[1]!r}, float({bad[0]!r}) = {float(bad[0])!r}')
+            else:
+                report.condition(cname, 'grid', 'inconclusive', r['secs'], n, f'symbolic run unsupported for this code shape ({r.get("detail", "")[:120]}); native grid of {n} literals agrees - no solver verdict')
         else:
             report.condition(cname, 'E2', 'inconclusive', r['secs'], 1, f'{r["verdict"]} {r.get("detail", "")}')
 
